@@ -1,7 +1,9 @@
 """C01 — reader indexing equals NumPy indexing of the concatenated recording (DESIGN.md §5 C01)."""
 import itertools
 import json
+import math
 import os
+import sys
 from fractions import Fraction
 import numpy as np
 from . import common as C
@@ -16,13 +18,23 @@ RULE = ('layouts: every composition of n <= N into parts of length >= 1 (flat fi
         'scalars), all slices with bounds in [-n,n] U {None} selecting >= 1 row, strictly increasing '
         'index lists/arrays (all subsets for small n), x column selectors {none, slice, reversed '
         'slice, index list, permutation, 1-element array}. Then random larger layouts. A case = one '
-        'layout with a batch of index expressions; non-trivial = layout with >= 2 parts or n >= 3')
+        'layout with a batch of index expressions; non-trivial = layout with >= 2 parts or n >= 3. Sample rates: usual '
+        'ones, and the boundary of what the constructors accept (the doubles at and next to 1/1200 Hz, rates whose float '
+        'product 600.0*rate sits on a .5 tie, the overflow threshold near 3e305 Hz): a rate outside the domain (RateOK of '
+        'Spec/C01b.lean, decided by the driver) is not judged. A single compressed file is opened both as an '
+        'mtscomp.Reader object and BY PATH (get_ephys_reader("a.cbin")); a list of several compressed files by path')
 ASSUMPTIONS = ['np.memmap / np.load / mtscomp decoding are transport (byte layout not modelled)',
                'oracle for reader[item, cols] is A[item][:, cols] (outer indexing)',
                'reader attributes: the Lean model builds the reader object of the backend from what the harness OBSERVED '
                'of the input (sizes of the files on disk, the .ch metadata, the exact rational value of the float sample '
-               'rate) and computes n_samples as the last chunk bound; duration is compared through float(Fraction), the '
-               'correctly rounded value of the single division the real property performs']
+               'rate) and computes n_samples as the last chunk bound (chunk length int(round(fl(600*rate))), the float product '
+               'of Model/C16d.lean, as in C16); duration is compared through float(Fraction), the '
+               'correctly rounded value of the single division the real property performs',
+               'which sample rates are in the domain is decided by the Lean driver (RateOK: the constructor accepts the rate '
+               'and the float product does not overflow), the same criterion as C16 (chunkSizeFl > 0, Fl.InRange)',
+               'get_ephys_reader(<path>.cbin) builds mtscomp.Reader(n_threads=cpu_count() // 2): on a machine with one CPU that '
+               'is 0 threads and mtscomp raises ZeroDivisionError (environment, not judged: the by-path form is then replaced by '
+               'the object form and tallied)']
 
 VAL = {'uint8': (1, 0), 'int16': (1, -30000), 'int32': (3, -100000), 'float32': (.5, -100.), 'float64': (.25, -1000.),
        '>i2': (1, -30000), '>f4': (.5, -100.), '>u4': (3, 100000)}     # non-native byte order (flat files only)
@@ -141,12 +153,25 @@ def impl(case):
                              dtype=np.dtype(dtype), chunk_duration=case.get('cd', 1.), n_threads=1,
                              check_after_compress=False, quiet=True)
             src = dict(meta=[json.loads((d / 'a.ch').read_text())])
-            rd = mtscomp.Reader(n_threads=1)
-            rd.open(d / 'a.cbin', d / 'a.ch')
-            r = get_ephys_reader(rd)
+            bypath = case.get('bypath')
+            if bypath:
+                import multiprocessing as mp
+                if mp.cpu_count() // 2 < 1:
+                    bypath = None           # one CPU: n_threads = 0 (environment; see ASSUMPTIONS)
+                    src['bypath'] = 'skipped: one CPU'
+            if bypath:
+                # the compressed file given BY PATH: `_get_ephys_constructor` opens the mtscomp reader itself
+                r = get_ephys_reader(str(d / 'a.cbin') if bypath == 'str' else d / 'a.cbin')
+                rd = r.reader
+                src['bypath'] = bypath
+            else:
+                rd = mtscomp.Reader(n_threads=1)
+                rd.open(d / 'a.cbin', d / 'a.ch')
+                r = get_ephys_reader(rd)
         attrs = dict(shape=[int(x) for x in r.shape], n_samples=int(r.n_samples),
                      n_channels=int(r.n_channels), dtype=str(np.dtype(r.dtype)),
-                     duration=float(r.duration), part_bounds=[int(x) for x in r.part_bounds])
+                     duration=float(r.duration), part_bounds=[int(x) for x in r.part_bounds],
+                     chunk_bounds=[int(x) for x in r.chunk_bounds])      # chunk_bounds: tallied only (C16 judges them)
         res = []
         for it, c, kind, pre in map(_entry, case['items']):
             item, cols = _pyitem(it, kind), _pycols(c, kind)
@@ -273,10 +298,83 @@ def oracle(case):
     return out
 
 
+def _attr_diff(a, x):
+    """real attributes `a` vs attributes from the driver (duration: exact rational -> correctly rounded float)"""
+    if x is None:
+        return 'no reader'
+    for k in ('shape', 'n_samples', 'n_channels'):
+        if a[k] != x[k]:
+            return k
+    if np.dtype(a['dtype']) != np.dtype(x['dtype']):
+        return 'dtype'
+    d = x['duration']
+    if d is None or a['duration'] != float(Fraction(*d) if isinstance(d, list) else Fraction(d)):
+        return 'duration'
+    return None
+
+
+def _multi_cbin(case):
+    return case['backend'] == 'cbin' and len(case['parts']) > 1
+
+
+def _multi_cbin_verdict(case, ok, m, exp):
+    """A recording given as a LIST of several compressed files.  -> (observed, message) or None when the reader is that
+    of the concatenation.  `observed`:
+    * 'first_file_only' - the open known finding, and nothing else: the reader is EXACTLY the reader of the first file
+      alone (the Lean model of the constructor keeps the first file, as the code does): its attributes and part bounds
+      are the model's, every index expression is answered as the model answers it (same rows, or an exception where
+      the model has one), and that differs from the concatenation;
+    * 'other' - anything else that differs from the concatenation: rows inside the first file that are not NumPy's, an
+      exception on an index the first file alone answers, other attributes, ..."""
+    a, sa, ma = ok['attrs'], m['spec_attrs'], m['attrs']
+    dev = []          # deviations from the concatenation (the property)
+    unlike = []       # differences from the reader of the first file alone (the model)
+    why = _attr_diff(a, sa)
+    if why:
+        dev.append('reader %s differs from the concatenated array: %s (concatenation: %s)' % (why, a, sa))
+    why = _attr_diff(a, ma) or (None if a['part_bounds'] == ma['part_bounds'] else 'part_bounds')
+    if why:
+        unlike.append('reader %s is not that of the first file alone: %s (first file: %s)' % (why, a, ma))
+    for k, (r, e, mm) in enumerate(zip(ok['res'], exp, m['res'])):
+        it = case['items'][k][0]
+        if mm['model'] == 'refused':
+            # an index list on compressed files: a refusal by any exception is fine, an ANSWER must be NumPy's
+            if 'raised' not in r and r['ids'] != e:
+                msg = 'item %d %s: an index list was answered, with rows that differ from NumPy indexing of the concatenation' % (k, it)
+                dev.append(msg); unlike.append(msg)
+            continue
+        good = 'raised' not in r and r['ids'] == e
+        if good and (np.dtype(r['dtype']) != np.dtype(case['dtype']).newbyteorder('=') or r['ndim'] != 2
+                     or r.get('args_changed') or r.get('second_differs')):
+            msg = 'item %d %s: dtype/ndim %s/%s, index objects changed: %s, second answer differs: %s' % (
+                k, it, r['dtype'], r['ndim'], r.get('args_changed'), r.get('second_differs'))
+            dev.append(msg); unlike.append(msg)
+            continue
+        like = ('raised' in r) if mm['model'] is None else ('raised' not in r and r['ids'] == mm['model'])
+        if not good:
+            dev.append('item %d %s: %s; NumPy on the concatenation: %s' % (
+                k, it, 'raised %s (%s)' % (r['raised'], r['msg']) if 'raised' in r else 'rows %s' % r['ids'], e))
+        if not like:
+            unlike.append('item %d %s: %s; the first file alone gives %s; NumPy on the concatenation: %s' % (
+                k, it, 'raised %s (%s)' % (r['raised'], r['msg']) if 'raised' in r else 'rows %s' % r['ids'],
+                'an exception' if mm['model'] is None else mm['model'], e))
+    if not dev:
+        return None
+    if not unlike:
+        return 'first_file_only', ('several compressed files: the reader is that of the FIRST file alone (known finding); '
+                                   + dev[0])[:600]
+    return 'other', ('several compressed files: beyond "only the first file is read": ' + unlike[0])[:900]
+
+
 def judge(case, impl_res, ans):
     if 'err' in ans:
         return 'MACHINERY: driver error %s' % ans['err']
     m = ans['ok']
+    if case['backend'] != 'cbin' and m.get('rate_ok') is False:
+        # a sample rate outside the domain (RateOK, Spec/C01b.lean: the constructor's `assert chunk_size > 0` on the
+        # float product fails, or the float product overflows): outside the property's quantifier whatever the real
+        # code does - the same criterion as the C16 check (tallied)
+        return None
     if 'raised' in impl_res:
         return 'SPEC: real code raised %s (%s) at %s while opening an in-domain recording' % (
             impl_res['raised'], impl_res['msg'], impl_res['where'])
@@ -284,41 +382,33 @@ def judge(case, impl_res, ans):
     exp = oracle(case)
     a = ok['attrs']
     sa, ma = m['spec_attrs'], m['attrs']
-
-    def differs(x):
-        """real attributes vs attributes from the driver (duration: exact rational -> correctly rounded float)"""
-        if x is None:
-            return 'no reader'
-        for k in ('shape', 'n_samples', 'n_channels'):
-            if a[k] != x[k]:
-                return k
-        if np.dtype(a['dtype']) != np.dtype(x['dtype']):
-            return 'dtype'
-        d = x['duration']
-        if d is None or a['duration'] != float(Fraction(*d) if isinstance(d, list) else Fraction(d)):
-            return 'duration'
-        return None
-    multi_cbin = case['backend'] == 'cbin' and len(case['parts']) > 1
+    multi_cbin = _multi_cbin(case)
     for mt, l in zip((ok.get('src') or {}).get('meta') or [], case['parts']):
         # the decoder contract the theorems assume (SrcOK): the metadata mtscomp wrote describe what was compressed
         if mt['n_channels'] != case['nch'] or np.dtype(mt['dtype']) != np.dtype(case['dtype']) or \
                 mt['chunk_bounds'][-1] != l or mt['sample_rate'] != case.get('sr', 100.):
             return 'MACHINERY: mtscomp metadata %s do not describe the compressed part (%d rows)' % (mt, l)
+    for k, (e, mm) in enumerate(zip(exp, m['res'])):
+        if mm['spec'] != e:
+            return 'MACHINERY: Lean spec differs from NumPy oracle at item %d' % k
+    if ma is None:
+        return 'MACHINERY: the Lean constructor refuses a recording inside SrcOK (contradicts reader_attrs_eq_concat)'
+    if multi_cbin:
+        v = _multi_cbin_verdict(case, ok, m, exp)
+        return None if v is None else 'SPEC: ' + v[1]
     rw = ok.get('rewritten')
     if rw and (rw['n_samples'] != rw['expected'] or not rw['same']):
         return ('SPEC: after the files were replaced (same paths) a newly opened reader does not show the new '
                 'recording: %s' % rw)
-    why = differs(sa)
+    why = _attr_diff(a, sa)
     if why:
         return ('SPEC: reader %s differs from the concatenated array: %s (concatenation: %s)' % (why, a, sa))
-    if not multi_cbin and differs(ma):
+    if _attr_diff(a, ma):
         # the real attributes are those of the concatenation, the model's are not: contradicts reader_attrs_eq_concat
         return 'MACHINERY: Lean reader model attributes %s differ from the concatenated array %s' % (ma, sa)
-    if ma is None or a['part_bounds'] != ma['part_bounds']:
+    if a['part_bounds'] != ma['part_bounds']:
         return 'CORR: part_bounds differ from the model (%s vs %s)' % (a['part_bounds'], ma and ma['part_bounds'])
     for k, (r, e, mm) in enumerate(zip(ok['res'], exp, m['res'])):
-        if mm['spec'] != e:
-            return 'MACHINERY: Lean spec differs from NumPy oracle at item %d' % k
         if mm['model'] == 'refused':
             # compressed file, index list: outside the quantifier ("except on compressed files whose decoder does
             # not offer it") - a refusal by any exception is fine, an ANSWER must be NumPy's
@@ -367,6 +457,21 @@ def tally(rep, case, impl_res, ans):
                 rep.count('cbin_index_list:' + (r['raised'] if 'raised' in r else 'answered'))
     if case['backend'] == 'flat':
         rep.count('file_names:%s/%s' % (case.get('names', 'idx'), case.get('pathkind', 'path')))
+    if case['backend'] == 'cbin':
+        bp = ((impl_res.get('ok') or {}).get('src') or {}).get('bypath')
+        rep.count('cbin_opened:' + ('list of paths' if _multi_cbin(case) else 'by path (%s)' % bp if bp else 'mtscomp.Reader object'))
+    elif 'ok' in ans:
+        m = ans['ok']
+        real = 'accepted' if 'ok' in impl_res else 'raised %s' % impl_res['raised']
+        if m.get('rate_ok') is False:
+            rep.count('sample_rate outside the domain (not judged): real constructor %s' % real)
+        else:
+            rep.count('sample_rate in the domain: chunk length from the float product %s the exact one' % (
+                '==' if m.get('cs_fl') == m.get('cs_exact') else '!='))
+            if 'ok' in impl_res and m.get('attrs'):
+                # never a verdict here (C16 judges the chunk bounds): how often the reader's list is the model's
+                rep.count('chunk_bounds %s the model' % (
+                    'as in' if impl_res['ok']['attrs'].get('chunk_bounds') == m['attrs'].get('chunk_bounds') else 'DIFFER from'))
     rep.extra['index_expressions_total'] = rep.hist.get('index_expressions', 0)
 
 
@@ -375,8 +480,17 @@ def classify(case, impl_res, ans, why):
     raised = None
     if 'ok' in impl_res and impl_res['ok']['res'] and 'raised' in impl_res['ok']['res'][0]:
         raised = impl_res['ok']['res'][0]['raised']
-    if case['backend'] == 'cbin' and len(case['parts']) > 1:
-        return dict(kind=why.split(':')[0], site='multi_cbin')
+    if _multi_cbin(case):
+        # WHAT is observed on a list of several compressed files (the open known finding is `first_file_only`: the reader
+        # is exactly the reader of the first file; a crash or wrong rows inside the first file is `other`)
+        observed = 'other'
+        if 'raised' in impl_res:
+            observed = 'raised_on_open'
+        elif 'ok' in impl_res and 'ok' in ans and ans['ok'].get('attrs') is not None and why.startswith('SPEC: several'):
+            v = _multi_cbin_verdict(case, impl_res['ok'], ans['ok'], oracle(case))
+            observed = v[0] if v else 'none'
+        return dict(kind=why.split(':')[0], site='multi_cbin', observed=observed,
+                    raised=impl_res.get('raised'))
     return dict(kind=why.split(':')[0], item=next(iter(it), None), item_kind=kind,
                 cols=None if c is None else next(iter(c)), raised=raised or impl_res.get('raised'),
                 multi=len(it.get('list', [])) >= 2)
@@ -385,6 +499,11 @@ def classify(case, impl_res, ans, why):
 def shrink(case):
     """candidates of `_shrink` on which NumPy itself accepts the index expressions (dropping a deferred selection
     changes the width the following selectors refer to)"""
+    if _multi_cbin(case):
+        # a list of several compressed files: the case is judged as a whole (is the reader exactly that of the first
+        # file - the known finding - or is there anything else?); dropping index expressions could turn "something
+        # else" into the known finding
+        return
     for c in _shrink(case):
         try:
             oracle(c)
@@ -507,8 +626,25 @@ def chained(nch, items, rng, k):
     return out
 
 
+def boundary_rates():
+    """sample rates at the boundary of what the constructors accept, as (rate, expected in the domain?) is NOT known
+    here - the driver decides; these are only the interesting doubles: at / next to 1/1200 Hz (float product 0.5: the tie
+    rounds to 0), rates (k + 1/2)/600 whose float product sits on or next to a tie, the overflow threshold of 600.0*rate"""
+    x = 1 / 1200
+    up, dn = math.nextafter(x, 1), math.nextafter(x, 0)
+    big = sys.float_info.max / 600.
+    out = [x, up, dn, 0.0225, big, math.nextafter(big, math.inf), 3e305, 2.9e305, math.nextafter(up, 1), 0.00084, 0.0008,
+           0.0025, 1e-310]
+    for k in (1, 2, 3, 6, 13, 22, 37):
+        t = (k + .5) / 600.
+        out += [t, math.nextafter(t, 0), math.nextafter(t, 1)]
+    return out
+
+
 def gen(tier, rng):
     q = tier == 'quick'
+    brates = boundary_rates()
+    bi = 0         # the boundary rates are walked in order
     N = 5 if q else 7
     dts = [d for d in VAL if not d.startswith('>')]
     k = 0
@@ -550,9 +686,31 @@ def gen(tier, rng):
             yield c
             if backend == 'npy' and nch >= 2:
                 yield dict(c, npy_order='F', rewrite=[2])
+            if backend == 'cbin':
+                # the same compressed file opened BY PATH (Path / str): `_get_ephys_constructor` builds the mtscomp reader
+                yield dict(c, bypath=['path', 'str'][n % 2], items=its[n % 2::2])
+            else:
+                # the same layout at a rate on the boundary of the constructor's domain
+                yield dict(c, sr=brates[bi % len(brates)], items=its[::3], rewrite=None)
+                bi += 1
+        # flat files at boundary rates (two parts when possible)
+        for j in range(2):
+            k += 1
+            sr = brates[bi % len(brates)]
+            bi += 1
+            parts = [n] if n == 1 else [1 + (k % (n - 1)), n - 1 - (k % (n - 1))]
+            nch = 1 + (k % 3)
+            yield dict(p=PID, backend='flat', parts=parts, nch=nch, dtype=dts[k % 5], offset=[0, 3][k % 2], sr=sr,
+                       items=[[it, None, 'py'] for it in items[::2]], aslist=True)
     # several compressed files (the reader only takes the first one: open known finding)
     for parts in ([4, 6], [3, 2, 5]):
-        its = [[{'slice': [None, None]}, None, 'py'], [{'int': sum(parts) - 1}, None, 'py'], [{'slice': [parts[0] - 1, parts[0] + 1]}, None, 'py']]
+        p0, n = parts[0], sum(parts)
+        its = [[{'slice': [None, None]}, None, 'py'], [{'int': n - 1}, None, 'py'], [{'slice': [p0 - 1, p0 + 1]}, None, 'py'],
+               # index expressions INSIDE the first file: they have to be NumPy's rows whatever happens to the other files
+               [{'int': 0}, None, 'py'], [{'int': p0 - 1}, {'idx': [1, 0]}, 'np'], [{'slice': [0, p0]}, None, 'py'],
+               [{'slice': [1, p0 - 1]}, {'slice': [None, None, -1]}, 'py:step1'], [{'slice': [None, p0 - 1]}, None, 'np:uint64'],
+               [{'int': 1}, None, 'py', [{'idx': [1]}]], [{'int': -1}, None, 'py'], [{'slice': [-2, None]}, None, 'py'],
+               [{'list': [0, 1]}, None, 'py'], [{'list': [p0 - 1, p0]}, None, 'np']]
         yield dict(p=PID, backend='cbin', parts=parts, nch=2, dtype='int16', sr=100., cd=.02, items=its)
     # random larger layouts
     for _ in range(120 if q else 2500):
@@ -592,7 +750,7 @@ def gen(tier, rng):
         # sample rates: usual ones (one chunk) and slow ones whose 600 s chunk is 21 / 37.5 / 112.5 / 9.375 samples, so
         # that n_samples = chunk_bounds[-1] is the end of a real chunk list
         yield dict(p=PID, backend='flat', parts=parts, nch=nch, dtype=dtype, offset=rng.pick([0, 0, 5, 128]),
-                   sr=rng.pick([100., 30000., 0.035, 1 / 16, 3 / 16, 1 / 64]), items=its, aslist=True,
+                   sr=rng.pick([100., 30000., 0.035, 1 / 16, 3 / 16, 1 / 64, 0.0225, rng.pick(brates)]), items=its, aslist=True,
                    names=rng.pick(['idx', 'rev', 'nat']),
                    pathkind=rng.pick(['path', 'str']),
                    # afterwards the same paths are rewritten (each part longer / shorter / as long) and reopened
